@@ -19,7 +19,7 @@ def keyspec(i, flavour):
         return 1000.5 + i
     if flavour in ("dashed", "collide"):
         # "x-1" style names as collections produce them; key_split / the default fused-key renamer work on these
-        return f"{'abcdefghijklmnop'[i % 16]}-1"
+        return f"{'abcdefghijklmnop'[i % 16]}{i // 16 or ''}-1"  # a-1 ... p-1, a1-1, ...: pairwise distinct
     if flavour == "mixed":
         return [f"k{i}", ["x", i, 0], 1000 + i, 1000.5 + i, f"k{i}"][i % 5]
     raise ValueError(flavour)
